@@ -247,10 +247,12 @@ type c20SimRecord struct {
 	WallMs          int64            `json:"wall_ms"`
 	Rows            []c20Row         `json:"rows"`
 	Sent            []c20Sent        `json:"sent"`
-	Checks          []c20Check       `json:"checks"` // only those whose (upkeep, block) occurs in a row
+	SentAfterChart  int              `json:"sent_after_chart"` // reports accepted after the chart had been written (not part of the record)
+	Checks          []c20Check       `json:"checks"`           // only those whose (upkeep, block) occurs in a row
 	ChecksTotal     int              `json:"checks_total"`
 	Nodes           int              `json:"nodes"`
 	ConfigLoads     int              `json:"config_loads"` // "config loaded at" lines
+	Switches        int              `json:"switches"`     // plugin instances created beyond the first one of each node (a later OCR3 config replaced the running instance)
 	BlocksSeen      int              `json:"blocks_seen"`  // distinct "next block" lines + genesis
 	SummaryEnd      bool             `json:"summary_end"`  // "================ end ================" printed
 	SummaryPanic    string           `json:"summary_panic,omitempty"`
@@ -370,6 +372,7 @@ func c20RunSimOnce(t *testing.T, planJSON []byte, exe string, raceBuild bool, re
 	// simulation.log
 	if b, err := os.ReadFile(filepath.Join(outDir, "simulation.log")); err == nil {
 		blocks := map[string]bool{}
+		chartSeen := false
 		for _, line := range strings.Split(string(b), "\n") {
 			if m := c20RowRe.FindStringSubmatch(strings.TrimSpace(line)); m != nil {
 				round, _ := strconv.ParseUint(m[2], 10, 64)
@@ -381,9 +384,18 @@ func c20RunSimOnce(t *testing.T, planJSON []byte, exe string, raceBuild bool, re
 				rec.Rows = append(rec.Rows, c20Row{Block: m[1], Round: round, Sender: m[3], Upkeep: up, CheckBlock: cb})
 				continue
 			}
+			if strings.Contains(line, "Transmitted Results") {
+				chartSeen = true
+			}
 			if m := c20SentRe.FindStringSubmatch(line); m != nil {
-				round, _ := strconv.ParseUint(m[2], 10, 64)
-				rec.Sent = append(rec.Sent, c20Sent{Sender: c20Shorten(m[1], 5), Round: round})
+				// the record is the chart: a report accepted after the chart was written (the nodes run on until they are
+				// closed, after the summary) cannot have rows in it
+				if chartSeen {
+					rec.SentAfterChart++
+				} else {
+					round, _ := strconv.ParseUint(m[2], 10, 64)
+					rec.Sent = append(rec.Sent, c20Sent{Sender: c20Shorten(m[1], 5), Round: round})
+				}
 			}
 			if m := c20FinalRe.FindStringSubmatch(line); m != nil {
 				rec.FinalResults, _ = strconv.Atoi(m[1])
@@ -435,6 +447,19 @@ func c20RunSimOnce(t *testing.T, planJSON []byte, exe string, raceBuild bool, re
 			seen[k2] = true
 			blk, _ := strconv.ParseUint(m[3], 10, 64)
 			rec.Checks = append(rec.Checks, c20Check{Node: ni, Upkeep: m[1], Block: blk, Eligible: el})
+		}
+	}
+	// per-node general logs: a plugin instance replaced by a later configuration
+	glogs, _ := filepath.Glob(filepath.Join(outDir, "*", "general.log"))
+	for _, p := range glogs {
+		b, err := os.ReadFile(p)
+		if err != nil {
+			continue
+		}
+		for _, line := range strings.Split(string(b), "\n") {
+			if strings.Contains(line, "switching between configs") && !strings.Contains(line, "oldConfigDigest: "+strings.Repeat("0", 64)) {
+				rec.Switches++
+			}
 		}
 	}
 	// finished trackers as printed
